@@ -455,16 +455,8 @@ pub fn run(a: &Args) {
         for k in 0..84usize {
             let mut counts: HashMap<Vec<String>, (u8, u64)> = HashMap::new();
             for _inst in 0..instances {
-                let mut req = if k % 6 == 4 {
-                    // a message whose operation-attributes group is not the first group in memory
-                    let mut r0 = IppRequestResponse::new_response(IppVersion::v1_1(), StatusCode::SuccessfulOk, k as u32);
-                    let opg = r0.attributes_mut().groups_mut().remove(0);
-                    let mut jg = IppAttributeGroup::new(DelimiterTag::JobAttributes);
-                    jg.attributes_mut().insert("job-id".into(), IppAttribute::new("job-id", IppValue::Integer(3)));
-                    r0.attributes_mut().groups_mut().push(jg);
-                    r0.attributes_mut().groups_mut().push(opg);
-                    r0
-                } else if k % 2 == 0 {
+                // (messages rearranged through groups_mut() are not "obtainable from the constructors ... followed by additions")
+                let mut req = if k % 2 == 0 {
                     IppRequestResponse::new_response(IppVersion::v1_1(), StatusCode::SuccessfulOk, k as u32)
                 } else {
                     IppRequestResponse::new(IppVersion::v2_0(), Operation::GetJobAttributes, if k % 4 == 1 { Some(TARGETS[k % TARGETS.len()].parse().unwrap()) } else { None })
